@@ -300,7 +300,11 @@ def _check_case(case):
         return fin(case, vio, "incomplete")
     # ----------------------------------------------------- garbage / overlong
     if fl in ("garbage", "overlong", "shortres"):
-        rfs = sorted(k for k in env.base if "results" + os.sep in k)
+        rfs = sorted(k for k in env.base
+                     if k.startswith(CROPDIR + os.sep + "results" + os.sep))
+        if len(rfs) != env.B:
+            raise core.HarnessError("result files %r for %d batches"
+                                    % (rfs, env.B))
         if fl == "garbage":
             with open(os.path.join(d, rfs[0]), "wb") as fh:
                 fh.write(b"\x80\x04garbage")
